@@ -145,9 +145,21 @@ class Ctx:
                 "extra": self.extra}
 
 
+def library_frame(ex):
+    """'file:function' of the innermost frame of the traceback that lies in the efootprint package (None if none)."""
+    root = os.path.realpath(os.path.join(env.REPO, "efootprint")) + os.sep
+    found = None
+    for fs in traceback.extract_tb(ex.__traceback__):
+        f = os.path.realpath(fs.filename)
+        if f.startswith(root):
+            found = "%s:%s" % (f[len(root):], fs.name)
+    return found
+
+
 def run_given(ctx, strategy, body, max_examples, shrink=False):
     """Drive ``body(case)`` with Hypothesis under the determinism rules of this framework."""
     from hypothesis import given, settings, seed, HealthCheck, Phase
+    from hypothesis.errors import HypothesisException
     ctx.shrink_mode = shrink
     phases = [Phase.generate, Phase.shrink] if shrink else [Phase.generate]
 
@@ -161,7 +173,25 @@ def run_given(ctx, strategy, body, max_examples, shrink=False):
         if shrink:
             ctx.recent.append(case)
             del ctx.recent[:-40]
-        body(case)
+            body(case)
+            return
+        try:
+            body(case)
+        except HypothesisException:
+            raise
+        except Exception as ex:
+            # The system-level checks only build models through the public constructors, apply the operations their
+            # property quantifies over and read public attributes. When the library raises while the check *reads* the
+            # model (the checks handle what the operations themselves may raise), the model is no longer the one the
+            # property describes: a violation with the failing case, not a harness error. An exception that does not
+            # come out of the library is a harness bug and stays one (exit 2).
+            where = library_frame(ex)
+            if where is None:
+                raise
+            ctx.violation("crash_in_library", case,
+                          "the library raised %s: %s while the check was observing the model (%s)\n%s" % (
+                              type(ex).__name__, str(ex)[:200], where, traceback.format_exc(limit=-6)),
+                          {"kind": "crash_in_library", "exc": type(ex).__name__, "where": where})
 
     from hypothesis.errors import FlakyFailure
     try:
@@ -350,7 +380,15 @@ def main_check(mod, tier, replay_path=None):
             except Exception:
                 pass
         ctx = ctx_factory()
-        mod.replay(rec["case"], ctx)
+        try:
+            mod.replay(rec["case"], ctx)
+        except Exception as ex:
+            where = library_frame(ex)
+            if where is None:
+                raise
+            ctx.violation("crash_in_library", rec["case"], "the library raised %s: %s while the check was observing "
+                          "the model (%s)" % (type(ex).__name__, str(ex)[:200], where),
+                          {"kind": "crash_in_library", "exc": type(ex).__name__, "where": where})
         found = [c for b in ctx.violations.values() for c in b["cases"]]
         for kid, n in ctx.known_hits.items():
             rec_k = [r for r in load_known_findings(mod.ID) if r["id"] == kid][0]
